@@ -71,6 +71,34 @@ inline MssmPt random_mssm(vt::Rng& r, double lo = 300, double hi = 3000,
    return p;
 }
 
+// wide hierarchies: every mass scale drawn independently over 2.5 decades (light bino, heavy gluino, split
+// sleptons ...); left-right mixing kept below half of m_L m_R so that the spectrum exists
+inline MssmPt wide_mssm(vt::Rng& r)
+{
+   for (int tries = 0; tries < 200; ++tries) {
+      MssmPt p;
+      p.TB = r.logu(1.5, 80);
+      p.Mu = r.sign() * r.logu(50, 2e4); p.M1 = r.sign() * r.logu(10, 2e4); p.M2 = r.sign() * r.logu(50, 2e4);
+      p.M3 = r.sign() * r.logu(300, 3e4); p.MA0 = r.logu(100, 1e4);
+      for (int i = 0; i < 3; ++i) {
+         const double ml = r.logu(100, 2e4), me = r.logu(100, 2e4), mq = r.logu(500, 2e4), mu = r.logu(500, 2e4), md = r.logu(500, 2e4);
+         p.ml2[i] = ml * ml; p.me2[i] = me * me; p.mq2[i] = mq * mq; p.mu2[i] = mu * mu; p.md2[i] = md * md;
+         p.Ae[i] = r.sign() * r.uni(0, 1) * std::min(ml, me); p.Au[i] = r.sign() * r.uni(0, 1) * std::min(mq, mu);
+         p.Ad[i] = r.sign() * r.uni(0, 1) * std::min(mq, md);
+      }
+      p.Q = std::sqrt(std::sqrt(p.mq2[2] * p.mu2[2]));
+      const double mf_l[3] = {0.000511, p.Mm, p.Mtau}, mf_d[3] = {0.0047, 0.096, p.Mb}, mf_u[3] = {0.0022, 1.28, p.Mt};
+      bool ok = true;
+      for (int i = 0; i < 3; ++i) {
+         ok = ok && mf_l[i] * std::fabs(p.Ae[i] - p.Mu * p.TB) < 0.5 * std::sqrt(p.ml2[i] * p.me2[i]);
+         ok = ok && mf_d[i] * std::fabs(p.Ad[i] - p.Mu * p.TB) < 0.5 * std::sqrt(p.mq2[i] * p.md2[i]);
+         ok = ok && mf_u[i] * std::fabs(p.Au[i] - p.Mu / p.TB) < 0.5 * std::sqrt(p.mq2[i] * p.mu2[i]);
+      }
+      if (ok) return p;
+   }
+   return random_mssm(r);
+}
+
 inline void apply(gm2calc::MSSMNoFV_onshell& m, const MssmPt& p)
 {
    const double Pi = 3.141592653589793;
